@@ -49,6 +49,14 @@ def WFfrom (sp : Spec) : List Op → Prop
 
 def WF (h : List Op) : Prop := WFfrom Spec.init h
 
+instance decWFfrom : ∀ (sp : Spec) (h : List Op), Decidable (WFfrom sp h)
+  | _, [] => by unfold WFfrom; exact inferInstance
+  | sp, op :: ops => by
+    unfold WFfrom
+    exact @instDecidableAnd _ _ inferInstance (decWFfrom (specStep sp op) ops)
+
+instance (h : List Op) : Decidable (WF h) := decWFfrom _ h
+
 /-! ### simulation -/
 
 def revalid (p : Pair) : Pair := { p with l := { p.l with valid := true } }
@@ -112,7 +120,7 @@ theorem sim_step {s : ISet} {sp : Spec} (hinv : Inv s) (hsim : Sim s sp) (hn : (
     simp only [step, add, specStep, ← hsim.st]
     by_cases hst : s.st = .resize
     · simp only [hst, ne_eq, not_true_eq_false, if_false, if_true, lift]
-      refine ⟨hsim.st, hsim.seq, ?_, hsim.cur, hsim.marks, hsim.groundDel⟩
+      refine ⟨rfl, hsim.seq, ?_, hsim.cur, hsim.marks, fun h => (by simp at h)⟩
       exact List.perm_append_singleton _ _ |>.trans (List.Perm.cons _ hsim.fresh)
     · simp only [hst, ne_eq, not_false_eq_true, if_true, if_false, lift]
       exact hsim
@@ -120,7 +128,7 @@ theorem sim_step {s : ISet} {sp : Spec} (hinv : Inv s) (hsim : Sim s sp) (hn : (
     simp only [step, add, specStep, ← hsim.st]
     by_cases hst : s.st = .resize
     · simp only [hst, ne_eq, not_true_eq_false, if_false, if_true, lift]
-      refine ⟨hsim.st, hsim.seq, ?_, hsim.cur, hsim.marks, hsim.groundDel⟩
+      refine ⟨rfl, hsim.seq, ?_, hsim.cur, hsim.marks, fun h => (by simp at h)⟩
       exact List.perm_append_singleton _ _ |>.trans (List.Perm.cons _ hsim.fresh)
     · simp only [hst, ne_eq, not_false_eq_true, if_true, if_false, lift]
       exact hsim
